@@ -5,6 +5,7 @@ open Sexp
 let dispatch (v : t) : t =
   match v with
   | L (A "c18" :: args) -> Glue_c18.handle args
+  | L (A "c16" :: args) -> Glue_c16.handle args
   | _ -> raise (Parse_error "unknown property")
 
 let () =
